@@ -111,6 +111,17 @@ func (r *histRun) msrun(op M) (out interface{}) {
 	}
 	rec := &recSource{inner: mj.src, main: map[int]bool{}}
 	sink := &jobs.VerifSink{}
+	failAt, hasFault := -1, false
+	if v, ok := op["failAt"]; ok {
+		failAt, hasFault = geti(op, "failAt"), true
+		_ = v
+		sink.Fail = func(call int, _ []*server.Entity) error {
+			if call == failAt {
+				return fmt.Errorf("sink rejected call %d (injected)", call)
+			}
+			return nil
+		}
+	}
 	jobID := "c18-" + job
 	_, err := jobs.VerifPipelineSync(r.h.Runner, jobID, rec, nil, sink, geti(op, "batch"), getb(op, "full"), context.Background())
 	res := "ok"
@@ -157,7 +168,43 @@ func (r *histRun) msrun(op M) (out interface{}) {
 	}
 	r.c.Count("c18:runs", 1)
 	r.c.Count("c18:dep-emitted", len(depIDs))
-	return M{"res": res, "deps": deps, "dep": depIDs, "main": mainIDs, "tok": tok}
+	if r.msOwed == nil {
+		r.msOwed = map[string]bool{}
+	}
+	accepted := []string{}
+	seen := map[string]bool{}
+	for _, b := range sink.Batches {
+		for _, e := range b {
+			if !seen[e.ID] {
+				seen[e.ID] = true
+				accepted = append(accepted, e.ID)
+			}
+		}
+	}
+	sort.Strings(accepted)
+	if hasFault && err != nil {
+		// the sink rejected a batch: the run ends with an error; what the sink had accepted and the token that was
+		// persisted are inputs of the model (the exact batching of join results is not modelled), what the model
+		// says the whole run owed is checked on the next run
+		op["faulted"] = true
+		op["emitted"] = accepted
+		op["tokAfter"] = tok
+		r.msOwed[job] = true
+		r.c.Count("c18:runs-interrupted", 1)
+		return M{"res": "err"}
+	}
+	if hasFault {
+		op["faulted"] = false
+	}
+	out = M{"res": res, "deps": deps, "dep": depIDs, "main": mainIDs, "tok": tok}
+	if r.msOwed[job] {
+		// the run after an interrupted one: everything the interrupted run still owed must be delivered now
+		op["emittedNow"] = accepted
+		out.(M)["owed_missing"] = []string{}
+		delete(r.msOwed, job)
+		r.c.Count("c18:runs-resumed", 1)
+	}
+	return out
 }
 
 // withMsRuns places runs of one or two MultiSource jobs between the operations of a generated history
@@ -222,7 +269,14 @@ func withMsRuns(c *Ctx, g *storeGen, ops []M) []M {
 		k := gets(op, "op")
 		if i >= 3 && (k == "store" || k == "txn") && c.Rng.Intn(3) == 0 {
 			j := jobsL[c.Rng.Intn(len(jobsL))]
-			out = append(out, run(j, c.Rng.Intn(12) == 0))
+			if c.Rng.Intn(4) == 0 {
+				// the sink rejects the n-th batch of this run; the next run has to deliver what this one still owed
+				f := run(j, false)
+				f["failAt"] = c.Rng.Intn(4)
+				out = append(out, f, run(j, false))
+			} else {
+				out = append(out, run(j, c.Rng.Intn(12) == 0))
+			}
 		}
 	}
 	for _, j := range jobsL {
@@ -259,6 +313,29 @@ func withMsRuns(c *Ctx, g *storeGen, ops []M) []M {
 				out = append(out, M{"op": "store", "ds": "b", "ents": []M{ent(links[c.Rng.Intn(len(links))], 600+round, M{"ns3:r1": fmt.Sprintf("ns3:e%d", 1+c.Rng.Intn(4))})}})
 			}
 			out = append(out, run(j3, false), run(j3, false))
+		}
+	}
+	if c.Rng.Intn(2) == 0 {
+		// fan-out: one changed dependency entity affects more main entities than fit into a batch; the sink rejects one of
+		// the batches of that run (job killed, sink down), the job resumes from the stored token
+		n := 3 + c.Rng.Intn(4)
+		j4 := jobT{"j4", M{"main": "a", "deps": []M{{"dataset": "b", "joins": []M{{"dataset": "a", "predicate": "ns3:r2", "inverse": true}}}},
+			"batch": 1 + c.Rng.Intn(2), "latestOnly": c.Rng.Intn(2) == 0}}
+		mains := []M{}
+		for i := 1; i <= n; i++ {
+			mains = append(mains, M{"id": fmt.Sprintf("ns3:m%d", i), "deleted": false, "props": M{"ns3:p0": 500 + i}, "refs": M{"ns3:r2": "ns3:hub"}})
+		}
+		out = append(out, M{"op": "store", "ds": "a", "ents": mains},
+			M{"op": "store", "ds": "b", "ents": []M{{"id": "ns3:hub", "deleted": false, "props": M{"ns3:p0": 1}, "refs": M{}}}},
+			run(j4, false), run(j4, false))
+		for round := 0; round < 1+c.Rng.Intn(2); round++ {
+			out = append(out, M{"op": "store", "ds": "b", "ents": []M{{"id": "ns3:hub", "deleted": false, "props": M{"ns3:p0": 2 + round}, "refs": M{}}}})
+			if c.Rng.Intn(2) == 0 {
+				out = append(out, M{"op": "store", "ds": "a", "ents": []M{{"id": "ns3:m1", "deleted": false, "props": M{"ns3:p0": 600 + round}, "refs": M{"ns3:r2": "ns3:hub"}}}})
+			}
+			f := run(j4, false)
+			f["failAt"] = c.Rng.Intn(n)
+			out = append(out, f, run(j4, false), run(j4, false))
 		}
 	}
 	return out
